@@ -43,6 +43,21 @@ The result is an `Expect`:
   raises   name of the documented exception class, or None
   ledger   expected allocator effects: list of (kind, 'alloc', n, result) /
            (kind, 'release', start); kinds node | buffer | control | audio
+
+Use after free (round 7).  A freed Bus / Buffer owns no id any more, so no
+command may name one on its behalf:
+  * methods the classes guard themselves (BusAlreadyFreed / BufferAlreadyFreed,
+    `as_map()` -> BusException 'bus not allocated') must raise - `raises`;
+  * every other call with a freed object in an *id* position (the remaining
+    Buffer methods, a freed destination of copy_data, a freed bus given to
+    map / mapa / mapn / mapan) may raise (`may_raise`) or do nothing, but must
+    not send a command: the expectation is "no packet", method name
+    '<Class.method>(freed ...)';
+  * a freed object in a *value* position (Node.set / Synth args) may raise or
+    travel as nil = int 0 (sclang), never as an index - `Freed` marker.
+A freed Node keeps its id (the server forgets the node, the client object does
+not change): the same commands with the same id are expected.
+`returns` is the expected return value of query operations (Bus.as_map).
 """
 
 from vf.osc import f32
@@ -96,11 +111,39 @@ def num(x):
     return x
 
 
+NOTHING = object()
+
+BUS_FREED = ('BusException', 'BusAlreadyFreed')
+# what a call on / with a freed object may raise when the class documents nothing
+UAF_RAISES = ('BusException', 'BusAlreadyFreed', 'BufferException',
+              'BufferAlreadyFreed', 'TypeError', 'ValueError')
+
+
+class Freed:
+    """A freed Bus / Buffer object in a value slot: nil (int 0) at most."""
+    def __init__(self, kind):
+        self.kind = kind
+
+    def __repr__(self):
+        return f'Freed({self.kind})'
+
+
+def has_freed(x):
+    if isinstance(x, Freed):
+        return True
+    if isinstance(x, (list, tuple)):
+        return any(has_freed(y) for y in x)
+    return False
+
+
 class Expect:
     def __init__(self, packets=(), raises=None, ledger=(), method='?',
-                 unordered=False):
+                 unordered=False, may_raise=(), returns=NOTHING):
         self.packets = list(packets)
-        self.raises = raises
+        self.raises = raises           # class name or tuple of names: must raise
+        self.may_raise = tuple(may_raise)   # may raise one of these instead
+        self.returns = returns
+        self.freed_args = False        # a freed object sits in a value slot
         self.ledger = list(ledger)
         self.method = method
         self.unordered = unordered     # bundle elements may come in any order
@@ -114,6 +157,12 @@ class Expect:
             out.extend([p] if kind == 'msg' else p)
         return out
 
+    def raise_ok(self, e):
+        """Is exception `e` one this expectation demands or allows?"""
+        names = {c.__name__ for c in type(e).__mro__}
+        want = (self.raises,) if isinstance(self.raises, str) else (self.raises or ())
+        return bool(names & (set(want) | set(self.may_raise)))
+
 
 # ---------------------------------------------------------------------------
 # value resolution
@@ -122,6 +171,8 @@ def control_input(v, env):
     """Value as it must appear in a plain (non bracketing) argument slot."""
     if isinstance(v, dict):
         if '$bus' in v:
+            if env[v['$bus']]['state'] == 'freed':
+                return Freed('bus')
             return env[v['$bus']]['index']
         if '$busindex' in v:
             return env[v['$busindex']]['index']
@@ -129,6 +180,8 @@ def control_input(v, env):
             b = env[v['$map']]
             return ('c' if b['rate'] == 'control' else 'a') + str(b['index'])
         if '$buf' in v:
+            if env[v['$buf']]['state'] == 'freed':
+                return Freed('buffer')
             return env[v['$buf']]['bufnum']
         if '$node' in v:
             return env[v['$node']]['id']
@@ -202,19 +255,85 @@ def _hold(op, env):
     return Expect([], method='bind-block-held-open')
 
 
+def stale_map(op, env):
+    """Handle of a freed bus whose as_map() the arguments of `op` evaluate
+    (`bus.as_map()` written as an argument expression), or None."""
+    def scan(x):
+        if isinstance(x, dict):
+            if '$map' in x:
+                return x['$map'] if env[x['$map']]['state'] == 'freed' else None
+            for v in x.values():
+                r = scan(v)
+                if r is not None:
+                    return r
+        elif isinstance(x, (list, tuple)):
+            for v in x:
+                r = scan(v)
+                if r is not None:
+                    return r
+        return None
+    for f in ('args', 'msg', 'msgs'):
+        if f in op:
+            r = scan(op[f])
+            if r is not None:
+                return r
+    return None
+
+
+def _bus_cls(b):
+    return 'ControlBus' if b['rate'] == 'control' else 'AudioBus'
+
+
+def expect_before(op, env):
+    """What is known before the call: an argument expression that must raise
+    (as_map() of a freed bus: nothing is created, sent or allocated), else the
+    full expectation of operations that create no object."""
+    h = stale_map(op, env)
+    if h is not None:
+        return Expect([], raises=BUS_FREED,
+                      method=f'{_bus_cls(env[h])}.as_map(freed)')
+    if 'out' not in op:
+        return expect(op, env)
+    return None
+
+
+def expect_if_raised(op, env):
+    """A creating operation raised: allowed when one of its arguments is a
+    freed object (value slot), see module doc string."""
+    if op['op'] == 'synth':
+        probe = dict(env)
+        args = osc_arg_list(op.get('args'), probe)
+        if has_freed(args):
+            e = Expect([], may_raise=UAF_RAISES,
+                       method=f"Synth.{op['ctor']}(freed object argument)")
+            e.freed_args = True
+            return e
+    return None
+
+
 def expect(op, env):
     k = op['op']
     return _OPS[k](op, env)
+
+
+def _mark(e, args):
+    """A freed object in a value slot: the call may raise instead."""
+    if has_freed(args):
+        e.freed_args = True
+        e.may_raise = UAF_RAISES
+    return e
 
 
 def _synth(op, env):
     ctor = op['ctor']
     args = osc_arg_list(op.get('args'), env)
     name = f'Synth.{ctor}'
+    if has_freed(args):
+        name += '(freed object argument)'
     if ctor == 'grain':
         m = ['/s_new', op['def'], -1, ADD_ACTIONS[op['action']],
              target_id(op['target'], env)] + args
-        return Expect([('msg', m)], method=name)
+        return _mark(Expect([('msg', m)], method=name), args)
     new = env[op['out']]['id']
     if ctor in ('init', 'new_paused'):
         action = ADD_ACTIONS[op['action']]
@@ -225,8 +344,9 @@ def _synth(op, env):
     if ctor == 'replace' and op.get('same_id'):
         led = []
     if ctor == 'new_paused':
-        return Expect([('bundle', [m, ['/n_run', new, 0]])], ledger=led, method=name)
-    return Expect([('msg', m)], ledger=led, method=name)
+        return _mark(Expect([('bundle', [m, ['/n_run', new, 0]])], ledger=led,
+                            method=name), args)
+    return _mark(Expect([('msg', m)], ledger=led, method=name), args)
 
 
 def _group(op, env):
@@ -265,7 +385,10 @@ def _node(op, env):
     if m == 'run':
         return Expect([msg('/n_run', nid, int(bool(op['flag'])))], method=name)
     if m == 'set':
-        return Expect([msg('/n_set', nid, *osc_arg_list(op['args'], env))], method=name)
+        a = osc_arg_list(op['args'], env)
+        if has_freed(a):
+            name += '(freed object argument)'
+        return _mark(Expect([msg('/n_set', nid, *a)], method=name), a)
     if m == 'setn':
         out = []
         for ctl, vals in _pairs(op['args'], 2):
@@ -280,6 +403,11 @@ def _node(op, env):
         out = [control_input(x, env) for x in op['args']]
         out = [num(x) if k % 3 == 2 else x for k, x in enumerate(out)]
         return Expect([msg('/n_fill', nid, *out)], method=name)
+    if m in ('map', 'mapa', 'mapn', 'mapan') and any(
+            isinstance(b, dict) and '$bus' in b and env[b['$bus']]['state'] == 'freed'
+            for _c, b in _pairs(op['args'], 2)):
+        # a freed bus in a bus-index slot: no index may be named for it
+        return Expect([], may_raise=UAF_RAISES, method=f'{name}(freed bus)')
     if m in ('map', 'mapa'):
         out = [control_input(x, env) for x in op['args']]
         return Expect([msg('/n_' + m, nid, *out)], method=name)
@@ -431,6 +559,13 @@ def _buf(op, env):
     m = op['m']
     name = f'Buffer.{m}'
     comp = lambda: completion(op.get('completion'), env, b)
+    if b['state'] == 'freed' and m != 'free':
+        if m in BUFFER_GUARDED:
+            return Expect([], raises='BufferAlreadyFreed', method=f'Buffer.{m}(freed)')
+        return Expect([], may_raise=UAF_RAISES, method=f'Buffer.{m}(freed)')
+    if m == 'copy_data' and env[op['dst']]['state'] == 'freed':
+        return Expect([], may_raise=UAF_RAISES,
+                      method='Buffer.copy_data(freed destination)')
     if m == 'free':
         if b['state'] == 'freed':
             # a freed buffer owns no number: nothing to send, nothing to return
@@ -508,6 +643,12 @@ def _buf(op, env):
         return Expect([msg('/b_gen', env[op['dst']]['bufnum'], 'copy',
                            op['dst_start'], n, op['start'], op['num'])], method=name)
     raise ValueError(m)
+
+
+# methods of Buffer that announce BufferAlreadyFreed themselves
+BUFFER_GUARDED = {'write', 'close', 'zero', 'fill', 'query', 'set', 'setn', 'get',
+                  'getn', 'gen', 'normalize', 'sine1', 'sine2', 'sine3', 'cheby',
+                  'copy_data'}
 
 
 def _bufgroup_free(op, env):
@@ -592,7 +733,18 @@ def _busm(op, env):
     raise ValueError(m)
 
 
-_OPS = {'hold': _hold, 'synth': _synth, 'group': _group, 'basic_new': _basic_new, 'node': _node,
+def _busq(op, env):
+    b = env[op['h']]
+    cls = _bus_cls(b)
+    if op['m'] == 'as_map':
+        if b['state'] == 'freed':
+            return Expect([], raises=BUS_FREED, method=f'{cls}.as_map(freed)')
+        return Expect([], method=f'{cls}.as_map',
+                      returns=('c' if b['rate'] == 'control' else 'a') + str(b['index']))
+    raise ValueError(op['m'])
+
+
+_OPS = {'hold': _hold, 'busq': _busq, 'synth': _synth, 'group': _group, 'basic_new': _basic_new, 'node': _node,
         'server': _server, 'buffer': _buffer, 'buf': _buf, 'free_all': _free_all,
         'bufgroup_free': _bufgroup_free,
         'bus': _bus, 'subbus': _subbus, 'busm': _busm}
@@ -623,6 +775,10 @@ def match_value(exp, got, decode_blob):
         if not hasattr(inner, 'addr'):
             return 'completion-is-a-bundle'
         return match_message(exp.msg, inner, decode_blob)
+    if isinstance(exp, Freed):
+        if isinstance(got, int) and not isinstance(got, bool) and got == 0:
+            return None
+        return f'freed-{exp.kind}-argument-sent-as-an-index'
     if isinstance(exp, Num):
         v = exp.v
         if isinstance(got, bool) or not isinstance(got, (int, float)):
@@ -690,6 +846,8 @@ def plain(exp):
         return {'one_of': [plain(o) for o in exp.options]}
     if isinstance(exp, Num):
         return exp.v
+    if isinstance(exp, Freed):
+        return {'freed': exp.kind}
     if isinstance(exp, (list, tuple)):
         return [plain(x) for x in exp]
     return exp
